@@ -13,6 +13,12 @@ package workercmd
 //@   before call invoke token.Key.SignContext(_, c, _, _): assert @sign_keeps_pin rr.KeyID != nil ==> pinned && c == pinnedCtx
 //@   before call (*tokencache.Cache).Ping(_, c): assert @ping_keeps_pin rr.KeyID != nil ==> pinned && c == pinnedCtx
 //@   ensures @error_reply_is_blank err != nil ==> !resp.Usage && !resp.Retryable && resp.Err == "" && resp.Key == ""
+//@   ghost tokErr error = nil
+//@   ghost tokFailed bool = false
+//@   on call invoke token.Key.SignContext(_, _, _, _) ret (v, e): tokErr = e; tokFailed = tokFailed || e != nil
+//@   on call (*tokencache.Cache).GetKey(_, _, _) ret (k, e): tokErr = e; tokFailed = tokFailed || e != nil
+//@   on call (*tokencache.Cache).Ping(_, _) ret (e): tokErr = e; tokFailed = tokFailed || e != nil
+//@   ensures @token_errors_reach_the_classifier_as_they_are tokFailed ==> err == tokErr
 //@
 //@ func (*handler).ServeHTTP
 //@   property C15
